@@ -15,7 +15,7 @@ import vmapi
 import jit as jit_unit
 import clif
 
-MACHINERY_FILES = ('src/spec.rs', 'contract.rs', 'src/shadow.rs', 'src/x86.rs')
+MACHINERY_FILES = ('src/spec.rs', 'contract.rs', 'src/shadow.rs', 'src/x86.rs', 'src/jit/abs.rs')
 
 
 def _status(c):
@@ -82,6 +82,9 @@ def kani_unit(gen, cfg='std', harness_file='src/harnesses.rs', trusted=None, ass
         kinds = {h['name']: h for h in info['harnesses']}
         obligations, known, samples = [], [], []
         known_by_id = {}
+        kx = info.get('kani_extra', [])
+        solver = kx[kx.index('--solver') + 1] if '--solver' in kx else 'cadical'
+        be = 'kani/cbmc+' + solver
         for h, res in sorted(ur.results.items()):
             hk = kinds.get(h, {})
             cls = driver.classify(res)
@@ -103,7 +106,7 @@ def kani_unit(gen, cfg='std', harness_file='src/harnesses.rs', trusted=None, ass
             if hk.get('kind') == 'should_panic':
                 obligations.append(dict(unit=unit_name, harness=h, name='should_panic harness: the panic is reached on every path satisfying the assumption',
                                         status='ok' if res['status'] == 'Success' else ('undecided' if cls == 'undecided' else 'failed'),
-                                        backend='kani/cbmc+cadical', seconds=res.get('seconds'), why='',
+                                        backend=be, seconds=res.get('seconds'), why='',
                                         output='' if res['status'] == 'Success' else json.dumps(res.get('error'))[:600]))
                 continue
             if cls == 'undecided':
@@ -126,7 +129,7 @@ def kani_unit(gen, cfg='std', harness_file='src/harnesses.rs', trusted=None, ass
                     st, why = 'undecided', 'failure located inside the specification/shadow text, not in extracted code'
                 else:
                     why = ''
-                obligations.append(dict(unit=unit_name, harness=h, name=name, status=st, backend='kani/cbmc+cadical',
+                obligations.append(dict(unit=unit_name, harness=h, name=name, status=st, backend=be,
                                         location=locs, seconds=res.get('seconds'), why=why,
                                         output=json.dumps(c)[:1500] if st != 'ok' else ''))
                 n_here += 1
@@ -139,7 +142,7 @@ def kani_unit(gen, cfg='std', harness_file='src/harnesses.rs', trusted=None, ass
             known.append('KNOWN-FINDING: property=%s %s [%s; obligations %s fail exactly on the carved-out class `%s` and are proved outside it; real crate: %s]' % (
                 pid, f['what'], fid, ', '.join('%s/%s' % (unit_name, h) for h in kd['hs']), f['exclusion'], kd['rp']))
         solver_s = sum((r.get('stats') or {}).get('runtime_decision_procedure_s', 0) or 0 for r in ur.results.values())
-        meta = dict(cmd=ur.meta['cmd'], backend='Kani 0.68 / CBMC 6.11 / CaDiCaL', harnesses=len(ur.results),
+        meta = dict(cmd=ur.meta['cmd'], backend='Kani 0.68 / CBMC 6.11 / ' + solver + (' (flags: %s)' % ' '.join(kx) if kx else ''), harnesses=len(ur.results),
                     cache_hits=ur.meta['cache_hits'], ran=ur.meta['ran'], wall_s=round(ur.meta['wall'], 1),
                     solver_s=round(solver_s, 2), extracted_sha256=info.get('hashes'), rewrites=info.get('rewrites'),
                     generated_tree_sha256=ur.meta['tree_hash'],
@@ -273,7 +276,7 @@ def cfgdiff_unit():
                         obligations.append(dict(unit=unit_name, harness='nostd:%s/%s' % (unit, h), name=d.replace('\n', ' ')[:160], status=st, backend='kani/cbmc+cadical (no_std tree)',
                                                 why='', output=json.dumps(c)[:800] if st != 'ok' else ''))
         # the no_std JitMemory::new contract lives in the jit unit (its crate is always built without `std`)
-        ur = driver.run_kani_unit('jit', jit_unit.generate, 'std', lambda h: h == 'jit_memory_new_nostd', tier, use_cache, jobs)
+        ur = driver.run_kani_unit('jit', jit_unit.generate, 'std', lambda h: h == 'jit_memory_new_nostd' or h.startswith('jit_memory_size_'), tier, use_cache, jobs)
         for h, res in ur.results.items():
             for c in res['checks']:
                 d = c.get('description', '')
@@ -284,7 +287,7 @@ def cfgdiff_unit():
                     std_site_inventory=inv, trusted=[], assumptions=[
                         'Vec / Box / String / format! / BTreeMap are the same alloc items under their std and alloc names',
                         'asm_parser::parse: easy_parse vs parse of the same grammar (trusted combine grammar; only the error text differs)',
-                        'JitMemory::new (std): allocation + mprotect + transmute are not executable by the verifier; the emission passes it runs are the shared jit_compile text',
+                        'JitMemory::new (std): allocation + mprotect + transmute are not executed by the verifier; its size expression is proved (>= what the counting pass sized, whole pages) and its use for layout / mprotect / slice is a structural obligation; the emission passes it runs are the shared jit_compile text',
                         'std-only helpers (rand, sqrti, bpf_trace_printf, bpf_time_getns) are absent without std, not different'])
         return dict(obligations=obligations, known=[], samples=[dict(unit=unit_name, sample=obligations[0]['name'])], meta=meta)
     return run
